@@ -7,6 +7,7 @@ import (
 	"io"
 	"reflect"
 	"sort"
+	"strconv"
 	"sync"
 
 	"github.com/99designs/gqlgen/graphql"
@@ -59,13 +60,11 @@ func dumpWith(w io.Writer, v reflect.Value, seen map[uintptr]bool, nameOnly map[
 		}
 		dumpWith(w, v.Elem(), seen, nameOnly)
 	case reflect.Struct:
-		fmt.Fprintf(w, "%s{", v.Type().Name())
-		for i := 0; i < v.NumField(); i++ {
-			if !v.Type().Field(i).IsExported() {
-				continue
-			}
-			fmt.Fprintf(w, "%s:", v.Type().Field(i).Name)
-			dumpWith(w, v.Field(i), seen, nameOnly)
+		io.WriteString(w, v.Type().Name())
+		io.WriteString(w, "{")
+		for _, f := range exportedFields(v.Type()) {
+			io.WriteString(w, f.label)
+			dumpWith(w, v.Field(f.idx), seen, nameOnly)
 			io.WriteString(w, ";")
 		}
 		io.WriteString(w, "}")
@@ -98,16 +97,41 @@ func dumpWith(w io.Writer, v reflect.Value, seen map[uintptr]bool, nameOnly map[
 		}
 		io.WriteString(w, "]")
 	case reflect.String:
-		fmt.Fprintf(w, "%q", v.String())
+		io.WriteString(w, strconv.Quote(v.String()))
 	case reflect.Bool:
-		fmt.Fprintf(w, "%v", v.Bool())
+		if v.Bool() {
+			io.WriteString(w, "true")
+		} else {
+			io.WriteString(w, "false")
+		}
 	case reflect.Int, reflect.Int8, reflect.Int16, reflect.Int32, reflect.Int64:
-		fmt.Fprintf(w, "%d", v.Int())
+		io.WriteString(w, strconv.FormatInt(v.Int(), 10))
 	case reflect.Uint, reflect.Uint8, reflect.Uint16, reflect.Uint32, reflect.Uint64:
 		fmt.Fprintf(w, "%d", v.Uint())
 	default:
 		fmt.Fprintf(w, "?%s", v.Kind())
 	}
+}
+
+type fieldInfo struct {
+	idx   int
+	label string // "<name>:"
+}
+
+var fieldCache sync.Map // reflect.Type -> []fieldInfo
+
+func exportedFields(t reflect.Type) []fieldInfo {
+	if v, ok := fieldCache.Load(t); ok {
+		return v.([]fieldInfo)
+	}
+	var fs []fieldInfo
+	for i := 0; i < t.NumField(); i++ {
+		if t.Field(i).IsExported() {
+			fs = append(fs, fieldInfo{i, t.Field(i).Name + ":"})
+		}
+	}
+	fieldCache.Store(t, fs)
+	return fs
 }
 
 func hashDoc(d *ast.QueryDocument) uint64 {
